@@ -2403,6 +2403,16 @@ func (p *Posix) UploadPart(ctx context.Context, input *s3.UploadPartInput) (*s3.
 		}
 		return nil, fmt.Errorf("write part data: %w", err)
 	}
+	if f.size != 0 {
+		// fewer bytes than declared were received: the temp file was
+		// preallocated to the declared length, so linking it would store
+		// a zero padded part
+		return nil, s3err.APIError{
+			Code:           "IncompleteBody",
+			Description:    "You did not provide the number of bytes specified by the Content-Length HTTP header.",
+			HTTPStatusCode: http.StatusBadRequest,
+		}
+	}
 
 	dataSum := hash.Sum(nil)
 	etag := hex.EncodeToString(dataSum)
@@ -2852,6 +2862,16 @@ func (p *Posix) PutObject(ctx context.Context, po s3response.PutObjectInput) (s3
 			return s3response.PutObjectOutput{}, s3err.GetAPIError(s3err.ErrQuotaExceeded)
 		}
 		return s3response.PutObjectOutput{}, fmt.Errorf("write object data: %w", err)
+	}
+	if f.size != 0 {
+		// fewer bytes than declared were received: the temp file was
+		// preallocated to the declared length, so linking it would store
+		// a zero padded object
+		return s3response.PutObjectOutput{}, s3err.APIError{
+			Code:           "IncompleteBody",
+			Description:    "You did not provide the number of bytes specified by the Content-Length HTTP header.",
+			HTTPStatusCode: http.StatusBadRequest,
+		}
 	}
 
 	dir := filepath.Dir(name)
